@@ -5,7 +5,8 @@ history (Artifacts.tla) maps to concrete files.  Interface edits only touch item
 so every version of every package type-checks against every version of its dependencies; each edit yields an
 interface content never seen before for that package (the model treats versions as injective)."""
 
-IFACE_KINDS = ["addfn", "sig", "field", "variant", "traitmethod", "impl", "removefn"]
+IFACE_KINDS = ["addfn", "sig", "field", "variant", "traitmethod", "impl", "removefn", "reorderfields", "reordervariants"]
+PERMS = [(0, 1, 2), (1, 0, 2), (1, 2, 0), (2, 1, 0), (2, 0, 1), (0, 2, 1)]
 BODY_KINDS = ["const", "let", "rename"]
 IMPL_TARGETS = ["int32", "bool", "string", "int8", "uint8", "int64"]
 
@@ -23,9 +24,13 @@ def pkg_source(name, deps, iedits=(), bedits=()):
     for d in sorted(deps):
         L.append(f"import {d}")
     L.append("")
-    fields = ["a: int32"] + [f"f{i}: int32" for i in range(1, n["field"] + 1)]
+    # (reorder edits change the ORDER of same-typed fields / of variants and nothing else: positions are part of what dependents
+    # are compiled against, so the interface changed)
+    base_f = ["a: int32", "b: int32", "c: int32"]
+    fields = [base_f[i] for i in PERMS[n["reorderfields"] % 6]] + [f"f{i}: int32" for i in range(1, n["field"] + 1)]
     L.append(f"struct {name}S {{ " + ", ".join(fields) + " }")
-    variants = ["V0"] + [f"V{i}(int32)" for i in range(1, n["variant"] + 1)]
+    base_v = ["V0", "W0(int32)", "X0(int32)"]
+    variants = [base_v[i] for i in PERMS[n["reordervariants"] % 6]] + [f"V{i}(int32)" for i in range(1, n["variant"] + 1)]
     L.append(f"enum {name}E {{ " + ", ".join(variants) + " }")
     methods = [f"m{i}" for i in range(0, n["traitmethod"] + 1)]
     L.append(f"trait {name}T {{")
